@@ -49,6 +49,7 @@ import (
 	"os"
 	"os/exec"
 	"path/filepath"
+	"runtime/pprof"
 	"sort"
 	"strconv"
 	"strings"
@@ -81,7 +82,9 @@ func singleEPs() []epCfg {
 	return out
 }
 
-var lightEPs = []epCfg{{"raw", 0}, {"raw", 1}, {"squashed", 0}, {"v1", 0}, {"tarball", 0}}
+// FromTarball only adds go-containerregistry's tarball reader in front of FromV1Image; it is left out
+// of the quick pairs and of the triples (singles and thorough pairs run it).
+var tripleEPs = []epCfg{{"raw", 0}, {"raw", 1}, {"squashed", 0}, {"v1", 0}}
 
 // block boundaries (index of the first case of every block), filled by forEachImageCase.
 type blockInfo struct {
@@ -119,7 +122,7 @@ func forEachImageCase(thorough bool, fn func(idx int, c imgCase) bool) []blockIn
 	}
 	end()
 
-	pairEPs := lightEPs
+	pairEPs := tripleEPs
 	if thorough {
 		pairEPs = singleEPs()
 	}
@@ -138,8 +141,9 @@ func forEachImageCase(thorough bool, fn func(idx int, c imgCase) bool) []blockIn
 
 	if thorough {
 		begin("triples: ordered pair + a write-through of one of its links, inserted at every position, every 1-2 layer split")
-		for _, e1 := range eq {
-			for _, e2 := range eq {
+		et := entriesOver(namesT, targetsT)
+		for _, e1 := range et {
+			for _, e2 := range et {
 				if !e1.isLink() && !e2.isLink() {
 					continue
 				}
@@ -148,17 +152,15 @@ func forEachImageCase(thorough bool, fn func(idx int, c imgCase) bool) []blockIn
 					if !l.isLink() || (l == e2 && e1 == e2) {
 						continue
 					}
-					for _, suf := range []string{"a", "a/a"} {
-						n := l.Name + "/" + suf
-						thirds = append(thirds, entry{Name: n, Kind: "f"}, entry{Name: n, Kind: "d"},
-							entry{Name: n, Kind: "s", Target: "a"}, entry{Name: n, Kind: "s", Target: ".."}, entry{Name: n, Kind: "h", Target: "a"})
-					}
+					n := l.Name + "/a"
+					thirds = append(thirds, entry{Name: n, Kind: "f"}, entry{Name: n, Kind: "d"},
+						entry{Name: n, Kind: "s", Target: ".."}, entry{Name: n, Kind: "h", Target: "a"}, entry{Name: n + "/a", Kind: "f"})
 				}
 				for _, e3 := range thirds {
 					for pos := 2; pos >= 0; pos-- {
 						seq := []entry{e1, e2}
 						seq = append(seq[:pos:pos], append([]entry{e3}, seq[pos:]...)...)
-						for _, ec := range lightEPs {
+						for _, ec := range tripleEPs {
 							emit(imgCase{EP: ec.EP, Cfg: ec.Cfg, Layers: [][]entry{seq}})
 							if ec.EP != "raw" {
 								emit(imgCase{EP: ec.EP, Cfg: ec.Cfg, Layers: [][]entry{seq[:1], seq[1:]}})
@@ -195,6 +197,7 @@ type summary struct {
 }
 
 type vmsg struct {
+	Idx    int    `json:"idx"`
 	Key    string `json:"key"`
 	What   string `json:"what"`
 	Replay any    `json:"replay"`
@@ -210,6 +213,11 @@ func keysOf(vs []viol) string {
 }
 
 func worker() {
+	if pf := os.Getenv("C06_PROF"); pf != "" {
+		f, _ := os.Create(pf)
+		_ = pprof.StartCPUProfile(f)
+		defer pprof.StopCPUProfile()
+	}
 	scankit.Quiet()
 	syscall.Umask(0o022)
 	parts := strings.Split(os.Getenv("C06_WORKER"), "/")
@@ -263,14 +271,14 @@ func worker() {
 					tag = "N"
 				}
 				for _, v := range res.Viols {
-					send(tag, vmsg{Key: v.Key, What: v.What, Replay: map[string]any{"phase": "image", "case": c}})
+					send(tag, vmsg{Idx: idx, Key: v.Key, What: v.What, Replay: map[string]any{"phase": "image", "case": c}})
 				}
 			}
 			return true
 		})
 	case "scan":
 		infos := discover(maxPathsFor(thorough))
-		jobs := scanJobs(infos)
+		jobs := scanJobs(infos, thorough)
 		for idx, j := range jobs {
 			if idx%n != k || idx < skipUntil {
 				continue
@@ -305,7 +313,7 @@ func worker() {
 				for _, v := range vs {
 					rj := j
 					rj.Only = v.Only
-					send(tag, vmsg{Key: v.Key, What: v.What, Replay: map[string]any{"phase": "scan", "job": rj}})
+					send(tag, vmsg{Idx: idx, Key: v.Key, What: v.What, Replay: map[string]any{"phase": "scan", "job": rj}})
 				}
 			}
 		}
@@ -326,14 +334,25 @@ func maxPathsFor(thorough bool) int {
 
 type phaseTotals struct {
 	summary
-	Crashes int
-	Hangs   int
+	Crashes  int
+	Hangs    int
+	Distinct int
+	Wall     float64
+}
+
+type vagg struct {
+	first vmsg
+	count int
 }
 
 func runPhase(r *ev.Run, rootDir, phase string, deadline time.Time) phaseTotals {
 	n := ev.Workers()
 	var tot phaseTotals
 	var mu sync.Mutex
+	t0 := time.Now()
+	viols := map[string]*vagg{}
+	dkeys := map[string]bool{}
+	nsamples := 0
 	var wg sync.WaitGroup
 	self, err := os.Executable()
 	must(err)
@@ -402,20 +421,38 @@ func runPhase(r *ev.Run, rootDir, phase string, deadline time.Time) phaseTotals 
 								nondet = append(nondet, v.Key+": "+v.What)
 								mu.Unlock()
 							} else {
-								r.Violation(v.Key, v.What, v.Replay)
+								// keep the smallest-index example per cause key so that what is reported does not depend on worker timing
+								mu.Lock()
+								a := viols[v.Key]
+								if a == nil {
+									a = &vagg{first: v}
+									viols[v.Key] = a
+								} else if v.Idx < a.first.Idx {
+									a.first = v
+								}
+								a.count++
+								mu.Unlock()
 							}
 						}
 					case 'E':
 						var v any
 						if json.Unmarshal([]byte(body), &v) == nil {
-							r.Sample(v)
+							mu.Lock()
+							nsamples++
+							ok := nsamples <= 3
+							mu.Unlock()
+							if ok {
+								r.Sample(v)
+							}
 						}
 					case 'X':
 						var ks []string
 						if json.Unmarshal([]byte(body), &ks) == nil {
+							mu.Lock()
 							for _, s := range ks {
-								r.Distinct(s)
+								dkeys[s] = true
 							}
+							mu.Unlock()
 						}
 					case 'D':
 						var s summary
@@ -456,6 +493,34 @@ func runPhase(r *ev.Run, rootDir, phase string, deadline time.Time) phaseTotals 
 		}(k)
 	}
 	wg.Wait()
+	var keys []string
+	for k := range viols {
+		keys = append(keys, k)
+	}
+	sort.Slice(keys, func(i, j int) bool {
+		a, b := viols[keys[i]], viols[keys[j]]
+		if a.first.Idx != b.first.Idx {
+			return a.first.Idx < b.first.Idx
+		}
+		return keys[i] < keys[j]
+	})
+	for _, k := range keys {
+		a := viols[k]
+		for i := 0; i < a.count; i++ {
+			r.Violation(a.first.Key, a.first.What, a.first.Replay)
+		}
+	}
+	// safety net: nothing but the workers' own (by now removed) roots may exist next to them
+	if des, err := os.ReadDir(rootDir); err == nil {
+		for _, de := range des {
+			if !strings.HasPrefix(de.Name(), phase+"-w") {
+				r.Violation("sandbox-escape:above-snapshot-root", fmt.Sprintf("%s phase left %q above every worker's snapshot root", phase, de.Name()), nil)
+			}
+			_ = os.RemoveAll(filepath.Join(rootDir, de.Name()))
+		}
+	}
+	tot.Distinct = len(dkeys)
+	tot.Wall = time.Since(t0).Seconds()
 	return tot
 }
 
@@ -490,7 +555,7 @@ func main() {
 
 	// phase (a): scans — given up to 40% of the budget
 	infos := discover(maxPathsFor(r.Thorough()))
-	jobs := scanJobs(infos)
+	jobs := scanJobs(infos, r.Thorough())
 	nPaths, nNoPath := 0, []string{}
 	for _, in := range infos {
 		nPaths += len(in.Paths)
@@ -500,11 +565,13 @@ func main() {
 	}
 	scanTot := runPhase(r, rootDir, "scan", start.Add(budget*4/10))
 	r.Evals.Add(scanTot.Evals)
+	r.Nontrivial.Add(int64(scanTot.Distinct))
 	if scanTot.Cut {
 		r.Cap("deadline: scan phase stopped at job %d of %d", scanTot.CutAt, len(jobs))
 	}
 	r.Set("scan", map[string]any{"plugins": len(infos), "production_paths": nPaths, "plugins_without_discovered_path": nNoPath,
-		"scan_jobs": len(jobs), "scans_run": scanTot.Evals, "scans_in_which_a_plugin_extracted": scanTot.Wrote})
+		"scan_jobs": len(jobs), "scans_run": scanTot.Evals, "scans_in_which_a_plugin_extracted": scanTot.Wrote,
+		"distinct_plugin_tree_variant_root_with_extract_called": scanTot.Distinct, "wall_s": scanTot.Wall, "worker_crashes": scanTot.Crashes, "worker_hangs": scanTot.Hangs})
 
 	// phase (b): images
 	blocks := forEachImageCase(r.Thorough(), func(int, imgCase) bool { return true })
@@ -525,8 +592,8 @@ func main() {
 		r.Cap("deadline: image phase stopped near case %d of %d; last block fully completed: %q", imgTot.CutAt, total, done)
 	}
 	r.Set("image", map[string]any{"blocks": blocks, "cases": total, "runs": imgTot.Evals, "runs_that_wrote_to_the_designated_dir": imgTot.Wrote,
-		"cases_not_encodable_as_tar": imgTot.Skipped, "runs_returning_error": imgTot.Errs,
-		"names": len(namesFull), "targets": len(targetsFull), "pair_names": len(namesQ), "pair_targets": len(targetsQ)})
+		"cases_not_encodable_as_tar": imgTot.Skipped, "runs_returning_error": imgTot.Errs, "wall_s": imgTot.Wall, "worker_crashes": imgTot.Crashes, "worker_hangs": imgTot.Hangs,
+		"names": len(namesFull), "targets": len(targetsFull), "pair_names": len(namesQ), "pair_targets": len(targetsQ), "triple_names": len(namesT), "triple_targets": len(targetsT)})
 	_ = os.RemoveAll(rootDir)
 	if len(nondet) > 0 {
 		sort.Strings(nondet)
@@ -617,5 +684,5 @@ func list() {
 	for _, b := range blocks {
 		fmt.Printf("block %q: %d cases\n", b.Name, b.N)
 	}
-	fmt.Println("scan jobs:", len(scanJobs(infos)))
+	fmt.Println("scan jobs:", len(scanJobs(infos, os.Getenv("VERIF_TIER") == "thorough")))
 }
